@@ -331,6 +331,8 @@ def default_flags():
 
 
 def gen_world(seed, profile="greedy", opts=None):
+    if profile == "clockwork":
+        return gen_clockwork_world(seed, opts)
     opts = dict(opts or {})
     r = _rng(seed, "world")
     # swarm switches
@@ -486,3 +488,90 @@ def world_size(world):
     for g in world["graphs"]:
         n += len(g["nodes"]) * g["release"].get("invocations", 4)
     return n
+
+
+# ---------------------------------------------------------------------------- clockwork
+def gen_clockwork_world(seed, opts=None):
+    """Clockwork worlds: 1-3 models with 2-3 batch-size strategies and a loading strategy, requests
+    are single-task graphs arriving by fixed / poisson / gamma / closed-loop release with deadlines
+    around the boundary; half of the worlds pre-load the models, half let the policy load them."""
+    opts = dict(opts or {})
+    r = _rng(seed, "world")
+    nworkers = r.choice([1, 1, 2])
+    npools = 1 if nworkers == 1 or r.random() < 0.6 else 2
+    nmodels = r.choice([1, 2, 2, 3])
+    ram_per_model = r.choice([1, 2])
+    pools = []
+    wi = 0
+    for p in range(npools):
+        ws = []
+        for _ in range(nworkers if npools == 1 else 1):
+            ram = r.choice([ram_per_model * nmodels, ram_per_model * nmodels, ram_per_model,
+                            ram_per_model * 2])
+            ws.append({"name": f"P{p}W{wi}", "resources": [{"name": "GPU", "id": None, "q": 1},
+                                                           {"name": "RAM", "id": None, "q": ram}]})
+            wi += 1
+        pools.append({"name": f"P{p}", "workers": ws})
+    cluster = {"types": ["GPU", "RAM"], "pools": pools}
+    profiles = {}
+    graphs = []
+    for m in range(nmodels):
+        sizes = r.choice([[1, 2], [1, 2, 4], [1, 4], [2, 4], [1, 2, 3]])
+        base = r.choice([1, 2, 3])
+        strategies = []
+        rt = base
+        for b in sizes:
+            strategies.append({"req": {"GPU:any": 1}, "runtime": rt, "batch": b})
+            rt += r.choice([1, 1, 2])
+        r.shuffle(strategies)
+        profiles[f"M{m}"] = {"name": f"M{m}", "strategies": strategies,
+                             "loading": [{"req": {"RAM:any": ram_per_model}, "runtime": r.choice([1, 2, 4]),
+                                          "batch": 1}]}
+    ngraphs = nmodels if r.random() < 0.7 else nmodels + 1
+    for gi in range(ngraphs):
+        model = f"M{gi % nmodels}"
+        rel_kind = r.choice(["fixed", "fixed", "poisson", "gamma", "closed_loop"])
+        n = r.choice([3, 4, 6, 8])
+        if rel_kind == "fixed":
+            rel = {"type": "fixed", "period": r.choice([0, 0, 1, 2, 3]), "invocations": n, "start": r.choice([0, 1, 3])}
+        elif rel_kind == "poisson":
+            rel = {"type": "poisson", "rate": r.choice([0.3, 0.5, 1.0]), "invocations": n, "start": r.choice([0, 2])}
+        elif rel_kind == "gamma":
+            rel = {"type": "gamma", "rate": r.choice([0.3, 0.5]), "coefficient": r.choice([0.5, 1.0, 2.0]),
+                   "invocations": n, "start": r.choice([0, 2])}
+        else:
+            rel = {"type": "closed_loop", "concurrency": r.choice([1, 2, 4]), "invocations": n, "start": 0}
+            rel["concurrency"] = min(rel["concurrency"], n)
+        graphs.append({"name": f"G{gi}", "shape": "single",
+                       "nodes": [{"name": f"G{gi}n0", "children": [], "conditional": False, "terminal": False,
+                                  "probability": 1.0, "profile": model}],
+                       "release": rel,
+                       "deadline_variance": r.choice([[0, 0], [0, 50], [0, 100], [50, 200], [100, 400], [0, 300]])})
+    flags = default_flags()
+    preload = r.random() < 0.5
+    flags["scheduler_run_load"] = (not preload) or r.random() < 0.3
+    if r.random() < 0.4:
+        flags["drop_skipped_tasks"] = True
+    if r.random() < 0.2:
+        flags["scheduler_delay"] = r.choice([1, 2])
+    if r.random() < 0.15:
+        flags["runtime_variance"] = r.choice([10, 50])
+    pre = []
+    if preload:
+        for p in pools:
+            for w in p["workers"]:
+                tot = [x["q"] for x in w["resources"] if x["name"] == "RAM"][0]
+                k = 0
+                for m in range(nmodels):
+                    if (k + 1) * ram_per_model <= tot and r.random() < 0.85:
+                        pre.append([w["name"], f"M{m}"])
+                        k += 1
+    total_rt = sum(g["release"]["invocations"] * 6 for g in graphs)
+    sim = {"loop_timeout": 30 * max(total_rt, 4) + 100, "scheduler_frequency": r.choice([-1, -1, -1, 1, 2, 5])}
+    world = {"seed": seed, "profile": "clockwork", "cluster": cluster, "profiles": profiles, "graphs": graphs,
+             "flags": flags, "sim": sim,
+             "policy": {"name": "Clockwork", "runtime": 0, "goal": r.choice(["clockwork", "least_slack"]),
+                        "enforce_deadlines": True},
+             "faults": gen_faults(r, "clockwork", opts), "loader": {"kind": "static"}, "preload": pre}
+    sanitize(world)
+    return world
